@@ -35,7 +35,7 @@ META = {
              "one injection expression per syscall). Seeded: random trees as in C13 in write mode. One CLI execution = one "
              "evaluation, judged per file (bytes vs library output / original bytes), per path (write-intent opens vs files "
              "that had to change), and on the exit status. Non-trivial = at least one selected file needs a change or "
-             "fails; distinct = distinct (format, multiset of outcome classes, argument shape, threads, flags) keys."),
+             "fails; distinct = distinct (format, multiset of outcome classes, argument shape, threads, flags) keys. Also pinned: pairs with whole-text ranges, a write-fault leg (RLIMIT_FSIZE), and files whose permission bits lack write access (444/400/555; the model asks whether the process may write, not the bits)."),
     "assumptions": [
         "the complete formatted text of a file is the library's own output under the options of the run (sv libfmt)",
         "the final bytes of a file are observed after the process has exited; a transient partial state during the run "
